@@ -532,7 +532,7 @@ class Engine(Interp):
         if t is I:
             return ("i", v.ty, st.itv[v.vid], st.taint.get(v.vid))
         if t is Fl:
-            return ("f", v.lo, v.hi, v.nan)
+            return ("f", v.lo, v.hi, v.nan, v.tag)
         if t is Ag:
             return ("a",) + tuple(self._sig(st, x, deep, depth + 1) for x in v.f)
         if deep and depth < 4:
